@@ -2,6 +2,11 @@
 import cliprops
 
 
+def kstr(k):
+    """printable key, the same for a tuple and for the list the JSON round trip makes of it"""
+    return str(tuple(k)) if isinstance(k, (list, tuple)) else str(k)
+
+
 def lifecycle_has_readd(case, res):
     """signature helper: an object is re-added on the bus after having been removed
     (the scenarios of findings F5 / F17: re-add while a removal is still queued)"""
@@ -9,7 +14,7 @@ def lifecycle_has_readd(case, res):
     for (o, ts, ev) in res["bus"]:
         if ev["evcategory"] != "base":
             continue
-        i = (ev["objtype"], str(ev["objpkey"]))
+        i = (ev["objtype"], kstr(ev["objpkey"]))
         if ev["eventtype"] == "removed":
             removed.add(i)
         elif ev["eventtype"] == "added" and i in removed:
@@ -25,7 +30,7 @@ def readd_while_queued(res):
     for ob in res["iters"]:
         seen_removed = set()
         for q in ob["queue"]:
-            i = (q["local"][1], str(q["local"][2]))
+            i = (q["local"][1], kstr(q["local"][2]))
             if q["local"][0] == "removed":
                 seen_removed.add(i)
             elif q["local"][0] == "added" and i in seen_removed:
@@ -38,7 +43,7 @@ def readded_objects(res):
     for (o, ts, ev) in res["bus"]:
         if ev["evcategory"] != "base":
             continue
-        i = (ev["objtype"], str(ev["objpkey"]))
+        i = (ev["objtype"], kstr(ev["objpkey"]))
         if ev["eventtype"] == "removed":
             removed.add(i)
         elif ev["eventtype"] == "added" and i in removed:
@@ -52,7 +57,7 @@ def readded_object_was_queued(case, res):
     re = readded_objects(res)
     for ob in res["iters"]:
         for q in ob["queue"]:
-            if (rname.get(q["local"][1]), str(q["local"][2])) in re:
+            if (rname.get(q["local"][1]), kstr(q["local"][2])) in re:
                 return True
     return False
 
@@ -74,11 +79,11 @@ def older_modified_retried_while_younger_queued(case, res):
     caches from the older event (re-applies an old 'modified', re-adds an object whose
     queued 'removed' was already simulated), which regress until the younger is applied"""
     for ob in res["iters"]:
-        queued = {(q["local"][1], str(q["local"][2])) for q in ob["queue"]}
+        queued = {(q["local"][1], kstr(q["local"][2])) for q in ob["queue"]}
         for c in ob["calls"]:
             if c["retry"] and c["out"] == "ok":
                 lt = "_".join(c["h"].split("_")[1:-1])
-                if (lt, str(c["key"])) in queued:
+                if (lt, kstr(c["key"])) in queued:
                     return True
     return False
 
@@ -120,7 +125,7 @@ def run(ctx):
                     "point, a quarter of the failures after partial processing with a step number), failures on retries included, retry pass at every "
                     "iteration, 6 extra iterations to drain; trashbin off; non-trivial = at least one handler call; distinct by (handler, key, outcome) sequence",
             "samples": [{"outcomes": res[0][0]["sessions"]["outcomes"][:12],
-                         "calls": [(c["h"], str(c["key"]), c["out"]) for it in res[0][0]["iters"] for c in it["calls"]][:12]}],
+                         "calls": [(c["h"], kstr(c["key"]), c["out"]) for it in res[0][0]["iters"] for c in it["calls"]][:12]}],
             "violations": violations, "corr_failures": corr, "coverage_extra": {"histogram": hist}}
 
 
